@@ -977,9 +977,11 @@ def set_margins_clauses(ctx, chk):
             if not (isinstance(x, NumV) and x.sym is None and x.k == 0):
                 bad.append('[%s] region accepted but cursor column is %s' % (r.label, g.term(eng, st, x)))
             if isinstance(m, EnumV) and m.tags == {1}:
-                mm = m.payload[1].fields['0']
-                tgt = mm.fields['top'] if decom else NumV(None, 0, 'u32')
-                if decom is not None and eng.prove_cmp(st, 'eq', y, tgt) is not True:
+                mm = m.payload[1].fields.get('0') if m.payload.get(1) else None
+                tgt = (mm.fields.get('top') if isinstance(mm, StructV) else None) if decom else NumV(None, 0, 'u32')
+                if not isinstance(tgt, NumV):
+                    bad.append('[%s] region accepted but its rows are not known' % r.label)
+                elif decom is not None and eng.prove_cmp(st, 'eq', y, tgt) is not True:
                     bad.append('[%s] region accepted but cursor row is %s (home is %s)' % (r.label, g.term(eng, st, y), g.term(eng, st, tgt)))
     chk.instance('R-MARGINS', short(f), 'CSI r removes the region; an accepted region homes the cursor', cnt > 0 and not bad,
                  detail='; '.join(bad[:3]) or '%d exit states (I3 itself is decided under C09)' % cnt, span=prog.bodies[f].span, what='; '.join(bad[:2]))
